@@ -98,6 +98,38 @@ Section Interp.
     - rewrite E. eexists; reflexivity.
   Qed.
 
+  (* the substitution itself: every reference is replaced by the shown value it resolves to, every literal segment
+     is kept as it is, in order. [settled v]: a referenced string is itself neither a template nor a variable string
+     (those are evaluated further, one level of fuel each). *)
+  Definition settled (v : value) : Prop :=
+    match v with VStr x => is_interp x = false /\ is_var_string x = false | _ => True end.
+
+  Lemma p2_string_settled f ec x : is_interp x = false -> is_var_string x = false -> p2_string o S di f ec x = Ok (VStr x).
+  Proof. intros H1 H2. destruct f; cbn [p2_string]; rewrite H1, H2; reflexivity. Qed.
+
+  Fixpoint subst_parts (segs : list (string * string)) (vals : list value) : list string :=
+    match segs, vals with
+    | lr :: segs', v :: vals' => fst lr :: show v :: subst_parts segs' vals'
+    | _, _ => []
+    end.
+
+  Theorem interp_substitute f ec s segs last vals :
+    is_interp s = true -> trim_suffix """" (trim_prefix "$""" s) = tmpl segs last ->
+    Forall (fun lr => nobrace (fst lr) /\ noclose (snd lr)) segs -> nobrace last ->
+    Forall2 (fun lr v => get_with_var o S di ec (snd lr) = Ok v /\ settled v) segs vals ->
+    p2_string o S di (Datatypes.S f) ec s = Ok (VStr (String.concat "" (subst_parts segs vals ++ [last]))).
+  Proof.
+    intros Hi Hb Hs Hl Hv. cbn [p2_string]. rewrite Hi, Hb, (scan_template segs last Hs Hl).
+    match goal with |- context [map_res ?g _] => set (G := g) end.
+    assert (E : map_res G (flat_map (fun lr => [Lit (fst lr); Ref (snd lr)]) segs ++ [Lit last]) = Ok (subst_parts segs vals ++ [last])).
+    { clear Hs Hb Hi. induction Hv as [|lr v segs' vals' [Hg Hst] _ IH]; [reflexivity|].
+      cbn [flat_map app map_res subst_parts]. unfold G at 1 2. cbn beta iota. cbn [bind]. rewrite Hg. cbn [bind].
+      assert (Es : (match v with VStr v2 => do x <- p2_string o S di f ec v2; Ok (show x) | _ => Ok (show v) end) = Ok (show v)).
+      { destruct v; try reflexivity. destruct Hst as [H1 H2]. now rewrite (p2_string_settled f ec s0 H1 H2). }
+      rewrite Es. cbn [bind]. fold G. rewrite IH. reflexivity. }
+    rewrite E. reflexivity.
+  Qed.
+
   (* $env:NAME as a whole string yields the variable's value (whatever it is bound to), and fails when unset *)
   Theorem env_value fuel ec n :
     p2_string o S di fuel ec ("$env:" ++ n) = match lookup ("$env:" ++ n) ec with Some v => Ok v | None => Err EVarNotFound end.
